@@ -293,11 +293,31 @@ def main():
     run.conv(cfg_(), [b'\x01' * 62, b'\x02' * 3, b'\x03' * 2, b'\x04'], [b'\x11' * 63, b'\x12' * 2, b'\x13', b'\x14'],
              [('D', 'D')] * 4 + [('D', 'L')], rtox=[0, 1, 0, 2], kind='corpus')         # RTOX byte delivered as payload
     run.conv(cfg_(), [b'\x01\x02'], [b'\x03'], [('L', 'D'), ('D', 'L'), ('D', 'L')], kind='corpus')  # release in first exchange
+    # NAD 0 / DID at the frame size limit: the NAD octet is sent whenever nad is not None, also for nad=0
+    run.conv(cfg_(nad=0, lrt=3), [b'\x01' * 250, b'\x02' * 251], [b'\x11', b'\x12'], [], kind='corpus')
+    run.conv(cfg_(brty='106A', nad=0, did=2, lrt=0), [b'\x01' * 59, b'\x02' * 60], [b'\x11' * 60, b'\x12' * 61], [], kind='corpus')
     # invalid arguments (compared with the model, not judged): empty payload / empty response
     run.conv(cfg_(), [b''], [b'\x01'], [], kind='argument')
     run.conv(cfg_(), [b'\x01'], [b''], [], kind='argument')
     run.conv(cfg_(), [b'\x01', b''], [b'\x02', b'\x03'], [], kind='argument')
     run.conv(cfg_(did=0), [b'\x01'], [b'\x02'], [], kind='argument')                     # DID 0 with the DID flag set
+    run.flush()
+
+    # ---------------- payloads of exactly MIU-1, MIU, MIU+1 in both directions for every LR pair, NAD absent / 0 / 7,
+    # DID absent / 2 (MIU from the property text: LR of the receiver minus D4/D5 code, PFB and the DID / NAD octets
+    # actually present in the frame); the frame-length monitor sees every frame
+    k = 0
+    for lri in range(4):
+        for lrt in range(4):
+            for nad in (None, 0, 7):
+                for did in (None, 2):
+                    k += 1
+                    cfg = cfg_(brty=BRTY[k % 3], did=did, nad=nad, lri=lri, lrt=lrt, brs=k % 3)
+                    mi = LR[lrt] - 3 - (did is not None) - (nad is not None)
+                    mt = LR[lri] - 3 - (did is not None)
+                    P = [bytes([0x20 + i]) * n for i, n in enumerate((mi - 1, mi, mi + 1))]
+                    R = [bytes([0x90 + i]) * n for i, n in enumerate((mt - 1, mt, mt + 1))]
+                    run.conv(cfg, P, R, [], kind='miu-boundary')
     run.flush()
 
     # ---------------- exhaustive fault scripts for short conversations
@@ -329,7 +349,7 @@ def main():
     # ---------------- fault-free conversations: payload sizes around k*MIU, all LR, DID/NAD, framing
     for lri in range(4):
         for lrt in range(4):
-            for did, nad in ((None, None), (3, None), (None, 9), (14, 1)):
+            for did, nad in ((None, None), (3, None), (None, 9), (14, 1), (None, 0), (2, 0)):
                 brty = BRTY[(lri + lrt + (did or 0)) % 3]
                 cfg = cfg_(brty=brty, did=did, nad=nad, lri=lri, lrt=lrt, brs=rng.randrange(3))
                 mi = LR[lrt] - 3 - (did is not None) - (nad is not None)
@@ -349,7 +369,7 @@ def main():
     F = [('D', 'D'), ('L', 'D'), ('C', 'D'), ('D', 'L'), ('D', 'C'), ('L', 'L'), ('C', 'C'), ('C', 'L')]
     for it in range(1200 if quick else 30000):
         did = rng.choice([None, None, 1, 14, 7, 0])
-        nad = rng.choice([None, None, 3])
+        nad = rng.choice([None, None, 3, 0])
         lri, lrt = rng.randrange(4), rng.randrange(4)
         cfg = cfg_(brty=rng.choice(BRTY), did=did, nad=nad, lri=lri, lrt=lrt, brs=rng.randrange(3))
         mi = LR[lrt] - 3 - (did is not None) - (nad is not None)
